@@ -1421,7 +1421,6 @@ class FlwdirRaster(Flwdir):
             idxs_out=idxs_out.ravel(),
             idxs_nxt=self.idxs_ds if direction == "down" else self.idxs_us_main,
             data=self._check_data(data, "data"),
-            weights=weights,
             nodata=nodata,
             mask=self._check_data(mask, "mask", optional=True),
             mv=self._mv,
